@@ -465,7 +465,12 @@ def run_C08(ctx):
         arg = std.get(name, "0.5")
         for pre in ["cp = %s\ncp(qq) = qq + 1\n" % name, "cp = %s\ndelete cp(qq)\ndelete cp(qq, rr)\n" % name, "clear\n", "cp = %s\ncp = 5\ndelete cp\n" % name,
                     "%s = 3\n%s(qq) = qq\ndelete %s\n" % (name, name, name), "ww(%s) = %s\nww(1)\n" % (name, name),
-                    "dp(%s, %s) = 1\ndp(10, 20)\n" % (name, name), "dq(%s, qq, %s) = qq\ndq(1, 2, 3)\ndq(1, 2)\n" % (name, name)]:
+                    "dp(%s, %s) = 1\ndp(10, 20)\n" % (name, name), "dq(%s, qq, %s) = qq\ndq(1, 2, 3)\ndq(1, 2)\n" % (name, name),
+                    # a shadowing parameter whose call FAILS (unknown name, division by zero, one level down, wrong kind):
+                    # the built-in must be what it was (a call that binds in place and skips the restore on error leaks it)
+                    "rq(%s) = %s + nopeq\nrq(2)\n" % (name, name), "rz(%s) = 1/%s\nrz(0)\n" % (name, name),
+                    "ri(%s) = nopeq\nro(%s) = ri(%s) + %s\nro(4)\n" % (name, name, name, name),
+                    "rk(%s, qq) = %s(qq) + [1,2]\nrk(3, 4)\nrk(sin, 4)\n" % (name, name)]:
             hist.append(pre + "%s(%s)\n%s" % (name, arg, name))
     run_values(ctx, "builtins-after-history", hist, with_info=True)
     # every name of the shipped table alone on a line, alone in brackets, and as the only word of its text
